@@ -750,6 +750,12 @@ def run_config(cfg):
                     res.append([evv(x) for x in r])
             p["expected"] = dict(results=res)
             return p
+        if kind == "select":
+            if out["err"] is not None:
+                return None
+            p = info_of(eng, out)(m)
+            p["expected"] = dict(best_k=int(out["opf"].subgraph.best_k))
+            return p
         if kind not in ("arcs", "cluster"):
             return None
         p = info_of(eng, out)(m)
